@@ -12,7 +12,9 @@ TPL_DIR = "templates"
 TPL_NAME = "tpl.tex"
 EDGES = [0, 1, 2]
 DATA = {"A": [1, 2], "B": [3, 4]}
-LABELS = ("T1", "T2")
+# the second template differs from the first by the smallest change a text can have: one more newline at
+# its end (jinja drops one trailing newline of a template, so the source carries two)
+LABELS = ("T1", "T1+nl")
 # directory (relative to OUT) of plot i; None = no output.dirname at all
 DIRS = ["d0", None, "d0/deep"]
 KIND_ORDER = {".csv": 0, ".tex": 1, ".pdf": 2, ".png": 3, ".jpeg": 3}
@@ -32,15 +34,21 @@ def csv_text(letter):
 
 def template_source(kind, label):
     """The jinja source (LaTeX syntax of lena.output.render_latex) written into the template file."""
+    tail = ""
+    if label.endswith("+nl"):
+        label, tail = label[:-3], "\n\n"
     if kind == "grouped":
         return (label + r":\BLOCK{for item in group}\input{\VAR{item.output.filepath}}"
-                r"\BLOCK{endfor}%")
-    return label + r":\input{\VAR{output.filepath}}%"
+                r"\BLOCK{endfor}%" + tail)
+    return label + r":\input{\VAR{output.filepath}}%" + tail
 
 
 def tex_text(label, csv_paths):
     """The rendered template: plain string substitution, no jinja."""
-    return label + ":" + "".join("\\input{%s}" % p for p in csv_paths) + "%"
+    tail = ""
+    if label.endswith("+nl"):
+        label, tail = label[:-3], "\n"
+    return label + ":" + "".join("\\input{%s}" % p for p in csv_paths) + "%" + tail
 
 
 def pdf_text(tex, csvs):
@@ -72,14 +80,18 @@ class Doc(object):
         return [p for _, p in self.members] + [self.tex, self.pdf, self.png]
 
 
+# a file name may contain a relative path (MakeFilename documents "{{variable.type}}/{{variable.name}}")
+NAMES = ["sub/p0", "p1", "p2"]
+
+
 def plot_stem(i):
     d = DIRS[i]
-    return os.path.join(OUT, d, "p%d" % i) if d else os.path.join(OUT, "p%d" % i)
+    return os.path.join(OUT, d, NAMES[i]) if d else os.path.join(OUT, NAMES[i])
 
 
 def layout(kind, p, img="png"):
     if kind == "plain":
-        return [Doc("p%d" % i, [(i, plot_stem(i) + ".csv")], plot_stem(i), img) for i in range(p)]
+        return [Doc(NAMES[i], [(i, plot_stem(i) + ".csv")], plot_stem(i), img) for i in range(p)]
     if kind == "grouped":
         return [Doc("g", [(i, plot_stem(i) + ".csv") for i in range(p)], os.path.join(OUT, "combined"), img)]
     raise ValueError(kind)
